@@ -1,7 +1,9 @@
 package rest
 
 import (
+	"errors"
 	"net/http"
+	"sync"
 	"time"
 
 	"github.com/gorilla/websocket"
@@ -33,11 +35,15 @@ var upgraderV1 = websocket.Upgrader{
 	WriteBufferSize: 1024,
 }
 
+var errListenerClosedV1 = errors.New("listener closed")
+
 // msgListenerV1 handles messages from the msghub
 type msgListenerV1 struct {
 	hub     *msghub.Hub                // Global message hub
 	c       chan event.MessageMetadata // Queue of messages from Receive()
 	mailbox string                     // Name of mailbox to monitor, "" == all mailboxes
+	done    chan struct{}              // Closed when this listener is shutting down.
+	once    sync.Once                  // Guards done.
 }
 
 // newMsgListenerV1 creates a listener and registers it.  Optional mailbox parameter will restrict
@@ -47,6 +53,7 @@ func newMsgListenerV1(hub *msghub.Hub, mailbox string) *msgListenerV1 {
 		hub:     hub,
 		c:       make(chan event.MessageMetadata, 100),
 		mailbox: mailbox,
+		done:    make(chan struct{}),
 	}
 	hub.AddListener(ml)
 	return ml
@@ -58,8 +65,25 @@ func (ml *msgListenerV1) Receive(msg event.MessageMetadata) error {
 		// Did not match the watched mailbox name.
 		return nil
 	}
-	ml.c <- msg
-	return nil
+	return ml.enqueue(msg)
+}
+
+// enqueue hands an event to the socket writer.  It waits while the writer's buffer is full, but
+// never longer than it takes the writer to give up on its peer (write deadline) and close this
+// listener; a listener that is shutting down reports an error and is dropped by the hub.
+func (ml *msgListenerV1) enqueue(msg event.MessageMetadata) error {
+	select {
+	case ml.c <- msg:
+		return nil
+	case <-ml.done:
+		return errListenerClosedV1
+	}
+}
+
+// shutdown tells the socket writer to stop.  The event channel is never closed, the hub may
+// still be sending to it.
+func (ml *msgListenerV1) shutdown() {
+	ml.once.Do(func() { close(ml.done) })
 }
 
 // Delete handles a deleted message.
@@ -119,14 +143,16 @@ func (ml *msgListenerV1) WSWriter(conn *websocket.Conn) {
 	// Handle messages from hub until msgListener is closed
 	for {
 		select {
-		case msg, ok := <-ml.c:
+		case <-ml.done:
+			// msgListener closed, exit
+			if err := conn.SetWriteDeadline(time.Now().Add(writeWaitV1)); err != nil {
+				slog.Warn().Err(err).Msg("Failed to set write deadline for close")
+			}
+			_ = conn.WriteMessage(websocket.CloseMessage, []byte{})
+			return
+		case msg := <-ml.c:
 			if err := conn.SetWriteDeadline(time.Now().Add(writeWaitV1)); err != nil {
 				slog.Warn().Err(err).Msg("Failed to set write deadline for msg")
-			}
-			if !ok {
-				// msgListener closed, exit
-				_ = conn.WriteMessage(websocket.CloseMessage, []byte{})
-				return
 			}
 			if conn.WriteJSON(metadataToHeader(&msg)) != nil {
 				// Write failed
@@ -148,13 +174,8 @@ func (ml *msgListenerV1) WSWriter(conn *websocket.Conn) {
 
 // Close removes the listener registration
 func (ml *msgListenerV1) Close() {
-	select {
-	case <-ml.c:
-		// Already closed
-	default:
-		ml.hub.RemoveListener(ml)
-		close(ml.c)
-	}
+	ml.shutdown()
+	ml.hub.RemoveListener(ml)
 }
 
 // MonitorAllMessagesV1 is a web handler which upgrades the connection to a websocket and notifies
